@@ -29,7 +29,7 @@ def depth_lemma():
 
 def units(tier):
     us = []
-    for q in ("_read_bytes", "_read_line", "_parse_rtcm3", "_parse_ubx", "_parse_nmea", "parse", "read", "__next__", "_do_error"):
+    for q in ("_read_bytes", "_read_line", "_parse_rtcm3", "_parse_ubx", "_parse_nmea", "parse", "read", "__next__", "__iter__", "_do_error"):
         us += func_units(f"{R}.{q}", tier)
     for q in ("__init__", "identity", "_do_attributes", "_set_attribute", "_set_attribute_group", "_set_attribute_optional",
               "_do_unknown", "_get_dict", "__setattr__"):
